@@ -48,15 +48,16 @@ type vWireMsg struct {
 }
 
 type vStatusEnv struct {
-	rpcSC   *SourceControl // an in-package server object wired to the client-updater queue (for SendAllStatus)
-	ok      bool
-	err     error
-	sub     *zmq4.Socket
-	wire    chan vWireMsg
-	last    map[string]string // per topic: last body seen on the wire (the linearisation)
-	cfgPath string
-	saves   int64
-	fenceNo int
+	rpcSC      *SourceControl // an in-package server object wired to the client-updater queue (for SendAllStatus)
+	ok         bool
+	err        error
+	sub        *zmq4.Socket
+	wire       chan vWireMsg
+	last       map[string]string // per topic: last body seen on the wire (the linearisation)
+	cfgPath    string
+	saves      int64
+	saveBegins int64 // saves attempted (hook save.begin)
+	fenceNo    int
 	// a persistent topic that only the configuration file of an "earlier run" holds: read at start-up, published by nobody in this
 	// process until inheritedChecks histories have been checked with it (after that the generators may publish the topic)
 	inherited       map[string]any
@@ -80,6 +81,9 @@ func vStatusSetup(tier string) {
 		Point: func(name string) {
 			if name == "save.done" {
 				atomic.AddInt64(&e.saves, 1)
+			}
+			if name == "save.begin" {
+				atomic.AddInt64(&e.saveBegins, 1)
 			}
 		},
 		Duration: func(name string, d time.Duration) time.Duration {
@@ -564,6 +568,32 @@ func vRunPersist(c *vCase) {
 	want := map[string]any{}
 	n := vRange(r, 3, 25)
 	c.Describe("persist: %d updates seed %d idx %d", n, c.Seed, c.Idx)
+	if c.Idx%20 == 9 {
+		// single I/O failure in a save: the temporary file cannot be written (a directory sits at its name). That save is lost;
+		// once the obstacle is gone the following saves must work as before.
+		tmpname := strings.Replace(e.cfgPath, ".yaml", ".tmp.yaml", 1)
+		if os.Mkdir(tmpname, 0o755) == nil {
+			b0 := atomic.LoadInt64(&e.saveBegins)
+			tag := "TRIANGLE"
+			val := vGenStatusValue(c, tag)
+			want[tag] = val
+			clientMessageChan <- ClientUpdate{tag, val}
+			for i := 0; i < 300 && atomic.LoadInt64(&e.saveBegins) == b0; i++ {
+				time.Sleep(10 * time.Millisecond)
+			}
+			attempted := atomic.LoadInt64(&e.saveBegins) > b0
+			time.Sleep(30 * time.Millisecond)
+			os.Remove(tmpname)
+			// (a save is scheduled by a change: one more change after the obstacle is gone, so that the lost save is made up for)
+			tag2 := "SIMPULSE"
+			val2 := vGenStatusValue(c, tag2)
+			want[tag2] = val2
+			clientMessageChan <- ClientUpdate{tag2, val2}
+			if attempted {
+				c.Cov("persist_histories_with_a_failed_save", 1)
+			}
+		}
+	}
 	for i := 0; i < n; i++ {
 		tag := vPersistTags[r.Intn(len(vPersistTags))]
 		for e.holdBack(tag) {
